@@ -667,6 +667,10 @@ func (m *Model) expect(op *Op) (int, effect) {
 		if op.K == OpCreate && (op.Mode < 0 || op.Mode > 2) {
 			return expEither, m.createEffect(op, o)
 		}
+		if op.K == OpSymlink && len(op.Target) > 300*BlockSize {
+			// a target that cannot fit one journal transaction: the server may refuse it
+			return expEither, m.createEffect(op, o)
+		}
 		return expOK, m.createEffect(op, o)
 	case OpRemove, OpRmdir:
 		if o.Kind != KDir || op.Name == "." || op.Name == ".." {
